@@ -84,6 +84,8 @@ def b_and(*xs):
 def b_not(x):
     if isinstance(x, bool):
         return not x
+    if z3.is_not(x):
+        return x.children()[0]
     return z3.Not(x)
 
 
@@ -92,6 +94,9 @@ def b_ite(c, x, y):
         return x
     if c is False:
         return y
+    if not isinstance(c, bool) and z3.is_not(c):
+        c = c.children()[0]
+        x, y = y, x
     if x is y:
         return x
     if isb(x) and isb(y):
@@ -128,6 +133,9 @@ def ite(c, x, y, w):
         return x
     if c is False:
         return y
+    if z3.is_not(c):          # canonical form: positive condition (keeps implementation and oracle terms shareable)
+        c = c.children()[0]
+        x, y = y, x
     if isinstance(x, int) and isinstance(y, int) and x == y:
         return x
     if x is y:
@@ -278,7 +286,7 @@ def ne(x, y, w):
 def ult(x, y, w):
     if isinstance(x, int) and isinstance(y, int):
         return x < y
-    return z3.ULT(bv(x, w), bv(y, w))
+    return z3.Not(z3.ULE(bv(y, w), bv(x, w)))      # canonical: only ULE / SLE atoms are ever built
 
 
 def ule(x, y, w):
@@ -298,7 +306,7 @@ def uge(x, y, w):
 def slt(x, y, w):
     if isinstance(x, int) and isinstance(y, int):
         return sgn(x, w) < sgn(y, w)
-    return bv(x, w) < bv(y, w)
+    return z3.Not(bv(y, w) <= bv(x, w))
 
 
 def sle(x, y, w):
@@ -344,6 +352,35 @@ def extract(x, hi, lo, w):
         return (x >> lo) & M(hi - lo + 1)
     if lo == 0 and hi == w - 1:
         return x
+    if z3.is_app_of(x, z3.Z3_OP_CONCAT):
+        # bitcast round trips: pick the operand that covers the requested slice (children are most significant first)
+        pos = w
+        for c in x.children():
+            cw = c.size()
+            pos -= cw
+            if lo >= pos and hi < pos + cw:
+                r = extract(c, hi - pos, lo - pos, cw)
+                return norm(r)
+            if hi >= pos + cw:
+                continue
+    elif x.decl().kind() in (z3.Z3_OP_BOR, z3.Z3_OP_BAND, z3.Z3_OP_BXOR, z3.Z3_OP_BNOT) and hi - lo + 1 < w:
+        # bitwise operators commute with slicing; this undoes <2 x i64> arithmetic on what are really 32-bit lanes
+        k = x.decl().kind()
+        parts = [extract(c, hi, lo, w) for c in x.children()]
+        nw = hi - lo + 1
+        if k == z3.Z3_OP_BNOT:
+            return not_(parts[0], nw)
+        f = {z3.Z3_OP_BOR: or_, z3.Z3_OP_BAND: and_, z3.Z3_OP_BXOR: xor}[k]
+        r = parts[0]
+        for q in parts[1:]:
+            r = f(r, q, nw)
+        return r
+    elif z3.is_app_of(x, z3.Z3_OP_EXTRACT):
+        h0, l0 = x.params()
+        c = x.children()[0]
+        return extract(c, l0 + hi, l0 + lo, c.size())
+    elif z3.is_bv_value(x):
+        return (x.as_long() >> lo) & M(hi - lo + 1)
     return z3.Extract(hi, lo, x)
 
 
